@@ -31,6 +31,7 @@ def run(ctx):
     plain_decrypt(ctx, P)
     skesk_decrypt(ctx, P)
     ring(ctx, P)
+    subkey_search(ctx, P)
     pkesk_identity(ctx, P)
 
 
@@ -139,6 +140,43 @@ def ring(ctx, P):
                 bad.append(site(b, i))
         ctx.check(P + ':ring:try_decrypt-no-key-on-failure', 'R-table', 'try_decrypt yields Some(session key) only in the Ok(Ok(_)) arms', n >= 2 and not bad,
                   function=b.path, missing=bad, count=n)
+
+
+def subkey_search(ctx, P):
+    """Every matching subkey is tried until one succeeds: the loop over a key's secret subkeys is left early (towards a
+    successful return) only through a branch on `result == InnerRingResult::Ok`."""
+    cands = [p for p in ctx.f.bodies if p.endswith('::find_session_key') and 'TheRing' in p]
+    b = ctx.body(cands[0]) if cands else None
+    if b is None:
+        return
+    heads = [i for i, t in b.calls(r'Iterator::next$') if 'SignedSecretSubKey' in t['f'].get('selfty', '')]
+    ctx.floor(P + ':ring:subkey-loop:floor', 'loop over secret subkeys in find_session_key', len(heads), 1)
+    oks = set(ok_exit_blocks(b))
+    errs_ = set(__import__('rules.common', fromlist=['x']).err_exit_blocks(b))
+    can_ok = b.can_reach(oks - errs_)
+    for h in heads:
+        # natural loop of the back edges into h: blocks that reach a back-edge source without passing h
+        dom = b.dominators()
+        back_src = [u for u in b.preds()[h] if h in dom.get(u, ())]
+        loop = b.can_reach(set(back_src), removed=frozenset([h])) | {h}
+        bad = []
+        for u in sorted(loop):
+            for v, _ in b.succ(u):
+                if v in loop or v not in can_ok:
+                    continue
+                t = b.blocks[u]['t']
+                if t['k'] != 'switch':
+                    bad.append((u, v))
+                    continue
+                og = b.switch_origins(u)
+                # iterator exhausted (the regular loop exit) or `result == Ok` (stop at first success)
+                if u == b.blocks[h]['t']['t']:
+                    continue  # the switch on next()'s Option right after the loop head: iterator exhausted
+                if has_origin(og, r'agg:.*InnerRingResult::Ok$'):
+                    continue
+                bad.append((u, v))
+        ctx.check(P + ':ring:subkey-loop-exits', 'R-dom', 'the subkey search loop is left early only after a successful decryption (branch on InnerRingResult::Ok) — every matching subkey is tried until one succeeds',
+                  not bad, function=b.path, site=site(b, bad[0][0]) if bad else None, missing=('unconditional or unrelated early exit from the subkey loop at %s' % [site(b, u) for u, v in bad]) if bad else None)
 
 
 def pkesk_identity(ctx, P):
